@@ -19,6 +19,7 @@ type Plan struct {
 	ID          string
 	Oracle      Oracle
 	Quick       []string // scenario names of the quick tier (bound QuickBound)
+	QuickDeep   []string // scenarios explored one deviation deeper in the quick tier, with what is left of the budget
 	Thorough    []string
 	QuickBound  int
 	ThorBound   int
@@ -67,6 +68,19 @@ func Main(p Plan) {
 		c.AddExplore(st)
 		if c.Failed() {
 			break
+		}
+	}
+	if !c.Thorough() && !c.Failed() && os.Getenv("VERIF_ONLY") == "" {
+		for i, n := range p.QuickDeep {
+			per := time.Until(deadline) / time.Duration(len(p.QuickDeep)-i)
+			if per < 3*time.Second {
+				break // nothing left of the budget: the deeper pass is skipped, not failed
+			}
+			st := explore.Explore(explore.Config{Scenario: key, Param: n, Bound: bound + 1, Budget: per})
+			c.AddExplore(st)
+			if c.Failed() {
+				break
+			}
 		}
 	}
 	if p.Post != nil && !c.Failed() {
